@@ -117,6 +117,13 @@ func registerVX() {
 	reg("Implies", func(in *Interp, c *frame, fn *ssa.Function, a []Value) Value {
 		return in.f.Or(in.f.Not(a[0].(*Term)), a[1].(*Term))
 	})
+	// LazyObject(maxKeys): an arbitrary map[string]any (see lazy.go)
+	reg("LazyObject", func(in *Interp, c *frame, fn *ssa.Function, a []Value) Value {
+		return in.newLazyMap(0, int(in.concInt(a[0])))
+	})
+	reg("LazyAny", func(in *Interp, c *frame, fn *ssa.Function, a []Value) Value {
+		return in.newLazyAny(0, int(in.concInt(a[0])))
+	})
 	reg("Symbolic", func(in *Interp, c *frame, fn *ssa.Function, a []Value) Value {
 		return trueT
 	})
